@@ -1988,6 +1988,23 @@ class Manager(utils.EventEmitter):
 
         # Look for a session with this connection, and create one if none exists
         if not (session := self.sessions.get(connection.handle)):
+            if command.code != CommandCode.PAIRING_REQUEST:
+                # Only a Pairing Request starts a pairing. Any other command received
+                # while no pairing is in progress is out of sequence: reject it once,
+                # and never answer a Pairing Failed, so that two stacks cannot keep
+                # replying to each other's replies.
+                logger.warning(
+                    f'unexpected {command.name} with no pairing in progress on '
+                    f'connection [0x{connection.handle:04X}]'
+                )
+                if command.code != CommandCode.PAIRING_FAILED:
+                    self.send_command(
+                        connection,
+                        SMP_Pairing_Failed_Command(
+                            reason=ErrorCode.UNSPECIFIED_REASON
+                        ),
+                    )
+                return
             if connection.role == Role.CENTRAL:
                 logger.warning('Remote starts pairing as Peripheral!')
             pairing_config = self.pairing_config_factory(connection)
